@@ -1,4 +1,5 @@
 import St4sd.Model.Hash
+import St4sd.Model.HashCache
 /-!
 Witnesses for C16 (machine-checked, `decide`): the inputs on which the code that exists violates the full
 statement.  `md5 := fun x => 'h' :: x` is a concrete *injective* stand-in, so none of the equalities below is
@@ -126,5 +127,87 @@ theorem set_based_files_identify_rebalanced_contents :
       = hashOneSet md5 false mergeBps [] (merge "merge_two" [x, y "b.cfg", y "c.cfg"])
     ∧ hashOne md5 false mergeBps [] (merge "merge_two" [x, x', y "c.cfg"])
       ≠ hashOne md5 false mergeBps [] (merge "merge_two" [x, y "b.cfg", y "c.cfg"]) := by decide
+
+/-! ### a hash asked for too early is remembered (sessions, `Model/HashCache.lean`)
+
+`fast` and `slow` feed `consumer` (`cat fast/out.txt:ref slow/out.txt:ref`).  `slow` has written the first half
+of its output when some code asks for the hash of the waiting consumer (what a status report that prints the
+hashes of pending components does); the hash exists — every file is there — and is remembered.  `slow` then
+writes the rest.  The hash that is read afterwards (the CDB look-up of `Controller.can_memoize`) is the
+remembered one: not the hash of the final contents.  The session does not keep the discipline
+(`disciplinedB = false`: the write goes under the producer cone of a remembered hash); the same reads in a
+session without the early request are current. -/
+
+def sref (abs rel : String) (p : Nat) (path : String) : SRef :=
+  ⟨abs.toList, rel.toList, "ref".toList, "out.txt".toList, .produced p path.toList⟩
+
+def scomp (name exe args : String) (refs : List SRef) : SComp :=
+  { name := name.toList, stage := 0, location := [], mtime := 0, replica := none, exe := exe.toList,
+    args := args.toList, refs := refs, backend := .loc }
+
+def sessionComps : List SComp :=
+  [scomp "fast" "sh" "-c one" [], scomp "slow" "sh" "-c two" [],
+   scomp "consumer" "cat" "fast/out.txt:ref slow/out.txt:ref"
+     [sref "stage0.fast/out.txt:ref" "fast/out.txt:ref" 0 "/i/fast/out.txt",
+      sref "stage0.slow/out.txt:ref" "slow/out.txt:ref" 1 "/i/slow/out.txt"]]
+
+def sessionBps : Blueprints :=
+  [((0, "fast".toList), "sh".toList), ((0, "slow".toList), "sh".toList), ((0, "consumer".toList), "cat".toList)]
+
+/-- `fast` is done, `slow` half-way -/
+def sessionFs : Fs :=
+  [("/i/fast/out.txt".toList, .file "one\n".toList 1 1), ("/i/slow/out.txt".toList, .file "part\n".toList 2 2)]
+
+def finishSlow : SOp := .fs (.write "/i/slow/out.txt".toList "part\nrest\n".toList 3 2)
+
+/-- the early request: evaluations of the producers and of the consumer before `slow` has finished -/
+def earlySession : List SOp :=
+  [.compute false 0, .compute false 1, .compute false 2, finishSlow, .compute false 2, .get false 2]
+
+/-- the same without the early request -/
+def lateSession : List SOp :=
+  [.compute false 0, .compute false 1, finishSlow, .compute false 2, .get false 2]
+
+theorem early_request_freezes_stale_hash :
+    let s₀ := Session.new sessionFs 3
+    let early := runS md5 sessionBps sessionComps s₀ earlySession
+    let late := runS md5 sessionBps sessionComps s₀ lateSession
+    -- both sessions end on the same files
+    early.fs = late.fs
+    -- the consumer's hash that is read at the end of the early session is not the hash of those files …
+    ∧ getH early.strong 2 ≠ getH (hashesFs md5 false sessionBps early.fs sessionComps) 2
+    ∧ (getH early.strong 2).isSome = true
+    -- … it is the hash of the half-written output
+    ∧ getH early.strong 2 = getH (hashesFs md5 false sessionBps sessionFs sessionComps) 2
+    -- the late session reads the hash of the final contents
+    ∧ getH late.strong 2 = getH (hashesFs md5 false sessionBps late.fs sessionComps) 2
+    -- the checker: the early session breaks the discipline, the late one keeps it
+    ∧ disciplinedB md5 sessionBps sessionComps s₀ earlySession = false
+    ∧ disciplinedB md5 sessionBps sessionComps s₀ lateSession = true
+    ∧ wellOrderedB sessionComps = true := by decide
+
+/-! ### a reference to an un-hashable producer left in the arguments by name
+
+What `replacementOf` must not do: leave the reference to the working directory of a producer that has no hash
+in the arguments (`some none` instead of `none`).  The consumer would get a hash although a file up the chain
+is missing — the same hash for consumers of producers that do different work, and another one after renaming
+the producer.  In the model the consumer has no hash (`Props.C16.no_hash_down_the_chain`). -/
+
+def chainComp (name exe args : String) (refs : List Ref) : Comp :=
+  { name := name.toList, stage := 0, location := [], mtime := 0, replica := none, exe := exe.toList,
+    args := args.toList, refs := refs, backend := .loc }
+
+def chainBps : Blueprints :=
+  [((0, "gen".toList), "/bin/echo".toList), ((0, "middle".toList), "/bin/cat".toList),
+   ((0, "consumer".toList), "/bin/ls".toList)]
+
+theorem no_hash_below_missing_file :
+    let gen := chainComp "gen" "/bin/echo" "hello" []
+    let middle := chainComp "middle" "/bin/cat" "gen/out.txt:ref"
+      [⟨"stage0.gen/out.txt:ref".toList, "gen/out.txt:ref".toList, "ref".toList, "out.txt".toList, .prodFile 0 none⟩]
+    let consumer := chainComp "consumer" "/bin/ls" "-l stage0.middle:ref"
+      [⟨"stage0.middle:ref".toList, "middle:ref".toList, "ref".toList, [], .prodDir 1⟩]
+    (hashes md5 false chainBps [gen, middle, consumer]).map Option.isSome = [true, false, false]
+    ∧ (hashes md5 true chainBps [gen, middle, consumer]).map Option.isSome = [true, false, false] := by decide
 
 end St4sd.C16.Witness
